@@ -6,6 +6,11 @@ use crate::verif_nd::{harness, nd_cover};
 
 /// S1: stub body for reserve_amortized
 pub(crate) fn fixed_first_alloc(rb: &mut RingBuffer, _amount: usize) {
+    if nd::stub_arg(1) == 1 {
+        // ghost mode (C11): only record that memory was requested
+        nd::set_ghost(5, nd::ghost(5) + 1);
+        return;
+    }
     assert!(rb.cap == 0, "ring growth outside the bound of this harness");
     let cap = nd::stub_arg(0);
     let layout = Layout::array::<u8>(cap).unwrap();
